@@ -1,1 +1,455 @@
-//! (reference for belt: to be written)
+//! STB 34.101.31-2020 "belt": the block cipher belt-block (section 6.1) and the wide-block transformations
+//! belt-wblock (section 6.2), written from the standard's numbered steps.
+//!
+//! Conventions of the standard (section 4): an octet string u1 || u2 || u3 || u4 is identified with the
+//! 32-bit number u1 + 2^8 u2 + 2^16 u3 + 2^24 u4 (first octet least significant: little-endian words);
+//! `[+]` / `[-]` are addition / subtraction modulo 2^32; RotHi^r is the cyclic shift by r bits towards the
+//! high-order bits; <i>_32 (<i>_128) is the number i written as a 32-bit (128-bit) word.
+//!
+//! * 6.1.2  the substitution H (256 octets, table 1 of the standard) and G_r(u) = RotHi^r(H(u1)||H(u2)||H(u3)||H(u4));
+//! * 6.1.3  encryption: X = a||b||c||d, key theta = theta_1||...||theta_8, round keys K_1..K_56 with
+//!          K_i = theta_{((i-1) mod 8) + 1}, eight rounds of steps 1)-12), Y = b||d||a||c;
+//! * 6.1.4  decryption: the rounds i = 8,...,1 with the mirrored key indices, X = c||a||d||b;
+//! * 6.2.3 / 6.2.4  belt-wblock encryption / decryption of a string of at least 32 octets whose length
+//!          need not be a multiple of 16.
+//!
+//! Anchored by the vectors of appendix A (tables A.1, A.2, A.6, A.7) below.
+
+/// Table 1 of the standard (section 6.1.2): H(x) for x = 0x00..0xFF, row-major (row = high nibble of x).
+/// Snapshot of the pinned tree: recovered as `H5[x] >> 5` from /repo/belt-block/src/consts.rs, cross-checked
+/// against the first row printed in the standard (B1 94 BA C8 0A 08 F5 3B 36 6D 00 8E 58 4A 5D E4) and
+/// against the appendix-A vectors, whose keys and plaintexts are rows of this table.
+pub const H: [u8; 256] = [
+    0xB1, 0x94, 0xBA, 0xC8, 0x0A, 0x08, 0xF5, 0x3B, 0x36, 0x6D, 0x00, 0x8E, 0x58, 0x4A, 0x5D, 0xE4,
+    0x85, 0x04, 0xFA, 0x9D, 0x1B, 0xB6, 0xC7, 0xAC, 0x25, 0x2E, 0x72, 0xC2, 0x02, 0xFD, 0xCE, 0x0D,
+    0x5B, 0xE3, 0xD6, 0x12, 0x17, 0xB9, 0x61, 0x81, 0xFE, 0x67, 0x86, 0xAD, 0x71, 0x6B, 0x89, 0x0B,
+    0x5C, 0xB0, 0xC0, 0xFF, 0x33, 0xC3, 0x56, 0xB8, 0x35, 0xC4, 0x05, 0xAE, 0xD8, 0xE0, 0x7F, 0x99,
+    0xE1, 0x2B, 0xDC, 0x1A, 0xE2, 0x82, 0x57, 0xEC, 0x70, 0x3F, 0xCC, 0xF0, 0x95, 0xEE, 0x8D, 0xF1,
+    0xC1, 0xAB, 0x76, 0x38, 0x9F, 0xE6, 0x78, 0xCA, 0xF7, 0xC6, 0xF8, 0x60, 0xD5, 0xBB, 0x9C, 0x4F,
+    0xF3, 0x3C, 0x65, 0x7B, 0x63, 0x7C, 0x30, 0x6A, 0xDD, 0x4E, 0xA7, 0x79, 0x9E, 0xB2, 0x3D, 0x31,
+    0x3E, 0x98, 0xB5, 0x6E, 0x27, 0xD3, 0xBC, 0xCF, 0x59, 0x1E, 0x18, 0x1F, 0x4C, 0x5A, 0xB7, 0x93,
+    0xE9, 0xDE, 0xE7, 0x2C, 0x8F, 0x0C, 0x0F, 0xA6, 0x2D, 0xDB, 0x49, 0xF4, 0x6F, 0x73, 0x96, 0x47,
+    0x06, 0x07, 0x53, 0x16, 0xED, 0x24, 0x7A, 0x37, 0x39, 0xCB, 0xA3, 0x83, 0x03, 0xA9, 0x8B, 0xF6,
+    0x92, 0xBD, 0x9B, 0x1C, 0xE5, 0xD1, 0x41, 0x01, 0x54, 0x45, 0xFB, 0xC9, 0x5E, 0x4D, 0x0E, 0xF2,
+    0x68, 0x20, 0x80, 0xAA, 0x22, 0x7D, 0x64, 0x2F, 0x26, 0x87, 0xF9, 0x34, 0x90, 0x40, 0x55, 0x11,
+    0xBE, 0x32, 0x97, 0x13, 0x43, 0xFC, 0x9A, 0x48, 0xA0, 0x2A, 0x88, 0x5F, 0x19, 0x4B, 0x09, 0xA1,
+    0x7E, 0xCD, 0xA4, 0xD0, 0x15, 0x44, 0xAF, 0x8C, 0xA5, 0x84, 0x50, 0xBF, 0x66, 0xD2, 0xE8, 0x8A,
+    0xA2, 0xD7, 0x46, 0x52, 0x42, 0xA8, 0xDF, 0xB3, 0x69, 0x74, 0xC5, 0x51, 0xEB, 0x23, 0x29, 0x21,
+    0xD4, 0xEF, 0xD9, 0xB4, 0x3A, 0x62, 0x28, 0x75, 0x91, 0x14, 0x10, 0xEA, 0x77, 0x6C, 0xDA, 0x1D,
+];
+
+/// 6.1.2: H as a function on octets.
+pub fn h(x: u8) -> u8 { H[x as usize] }
+
+/// RotHi^r on 32-bit words (r taken modulo 32).
+pub fn rot_hi(u: u32, r: u32) -> u32 { u.rotate_left(r % 32) }
+
+/// 6.1.2: G_r(u) = RotHi^r(H(u1) || H(u2) || H(u3) || H(u4)) for u = u1||u2||u3||u4.
+pub fn g(r: u32, u: u32) -> u32 {
+    let u1 = (u & 0xff) as u8;
+    let u2 = ((u >> 8) & 0xff) as u8;
+    let u3 = ((u >> 16) & 0xff) as u8;
+    let u4 = (u >> 24) as u8;
+    let v = (h(u1) as u32) | ((h(u2) as u32) << 8) | ((h(u3) as u32) << 16) | ((h(u4) as u32) << 24);
+    rot_hi(v, r)
+}
+
+/// 6.1.3 step 2-3: round key K_i, i = 1..=56: K_1 = theta_1, ..., K_8 = theta_8, K_9 = theta_1, ..., K_56 = theta_8.
+/// (`theta[j]` holds theta_{j+1}.)
+pub fn round_key(theta: &[u32; 8], i: usize) -> u32 {
+    // i in 1..=56
+    theta[(i - 1) % 8]
+}
+
+/// 6.1.3 step 5, one round i (1..=8) of encryption on the state (a, b, c, d).
+pub fn enc_round(s: [u32; 4], theta: &[u32; 8], i: usize) -> [u32; 4] {
+    let (mut a, mut b, mut c, mut d) = (s[0], s[1], s[2], s[3]);
+    // 1) b <- b xor G5(a [+] K[7i-6])
+    b ^= g(5, a.wrapping_add(round_key(theta, 7 * i - 6)));
+    // 2) c <- c xor G21(d [+] K[7i-5])
+    c ^= g(21, d.wrapping_add(round_key(theta, 7 * i - 5)));
+    // 3) a <- a [-] G13(b [+] K[7i-4])
+    a = a.wrapping_sub(g(13, b.wrapping_add(round_key(theta, 7 * i - 4))));
+    // 4) e <- G21(b [+] c [+] K[7i-3]) xor <i>_32
+    let e = g(21, b.wrapping_add(c).wrapping_add(round_key(theta, 7 * i - 3))) ^ (i as u32);
+    // 5) b <- b [+] e
+    b = b.wrapping_add(e);
+    // 6) c <- c [-] e
+    c = c.wrapping_sub(e);
+    // 7) d <- d [+] G13(c [+] K[7i-2])
+    d = d.wrapping_add(g(13, c.wrapping_add(round_key(theta, 7 * i - 2))));
+    // 8) b <- b xor G21(a [+] K[7i-1])
+    b ^= g(21, a.wrapping_add(round_key(theta, 7 * i - 1)));
+    // 9) c <- c xor G5(d [+] K[7i])
+    c ^= g(5, d.wrapping_add(round_key(theta, 7 * i)));
+    // 10) a <-> b
+    let t = a; a = b; b = t;
+    // 11) c <-> d
+    let t = c; c = d; d = t;
+    // 12) b <-> c
+    let t = b; b = c; c = t;
+    [a, b, c, d]
+}
+
+/// 6.1.4 step 5, one round i (8 down to 1) of decryption on the state (a, b, c, d).
+pub fn dec_round(s: [u32; 4], theta: &[u32; 8], i: usize) -> [u32; 4] {
+    let (mut a, mut b, mut c, mut d) = (s[0], s[1], s[2], s[3]);
+    // 1) b <- b xor G5(a [+] K[7i])
+    b ^= g(5, a.wrapping_add(round_key(theta, 7 * i)));
+    // 2) c <- c xor G21(d [+] K[7i-1])
+    c ^= g(21, d.wrapping_add(round_key(theta, 7 * i - 1)));
+    // 3) a <- a [-] G13(b [+] K[7i-2])
+    a = a.wrapping_sub(g(13, b.wrapping_add(round_key(theta, 7 * i - 2))));
+    // 4) e <- G21(b [+] c [+] K[7i-3]) xor <i>_32
+    let e = g(21, b.wrapping_add(c).wrapping_add(round_key(theta, 7 * i - 3))) ^ (i as u32);
+    // 5) b <- b [+] e
+    b = b.wrapping_add(e);
+    // 6) c <- c [-] e
+    c = c.wrapping_sub(e);
+    // 7) d <- d [+] G13(c [+] K[7i-4])
+    d = d.wrapping_add(g(13, c.wrapping_add(round_key(theta, 7 * i - 4))));
+    // 8) b <- b xor G21(a [+] K[7i-5])
+    b ^= g(21, a.wrapping_add(round_key(theta, 7 * i - 5)));
+    // 9) c <- c xor G5(d [+] K[7i-6])
+    c ^= g(5, d.wrapping_add(round_key(theta, 7 * i - 6)));
+    // 10) a <-> b
+    let t = a; a = b; b = t;
+    // 11) c <-> d
+    let t = c; c = d; d = t;
+    // 12) a <-> d
+    let t = a; a = d; d = t;
+    [a, b, c, d]
+}
+
+/// 6.1.3: Y = belt-block(X, theta) on words: X = a||b||c||d = x[0]||x[1]||x[2]||x[3].
+pub fn encrypt_words(x: [u32; 4], theta: &[u32; 8]) -> [u32; 4] {
+    // steps 1-4: split X and theta into words, round keys K_1..K_56 (see `round_key`)
+    let mut s = x;
+    // step 5: for i = 1, 2, ..., 8
+    let mut i = 1;
+    while i <= 8 {
+        s = enc_round(s, theta, i);
+        i += 1;
+    }
+    // step 6: Y <- b || d || a || c
+    [s[1], s[3], s[0], s[2]]
+}
+
+/// 6.1.4: X = belt-block^{-1}(Y, theta) on words.
+pub fn decrypt_words(y: [u32; 4], theta: &[u32; 8]) -> [u32; 4] {
+    let mut s = y;
+    // step 5: for i = 8, 7, ..., 1
+    let mut i = 8;
+    while i >= 1 {
+        s = dec_round(s, theta, i);
+        i -= 1;
+    }
+    // step 6: X <- c || a || d || b
+    [s[2], s[0], s[3], s[1]]
+}
+
+/// Octet string of 4*N octets -> N words (first octet least significant).
+pub fn words<const N: usize>(b: &[u8]) -> [u32; N] {
+    let mut w = [0u32; N];
+    let mut i = 0;
+    while i < N {
+        w[i] = (b[4 * i] as u32) | ((b[4 * i + 1] as u32) << 8) | ((b[4 * i + 2] as u32) << 16) | ((b[4 * i + 3] as u32) << 24);
+        i += 1;
+    }
+    w
+}
+
+/// 4 words -> 16 octets (first octet least significant).
+pub fn octets16(w: &[u32; 4]) -> [u8; 16] {
+    let mut b = [0u8; 16];
+    let mut i = 0;
+    while i < 4 {
+        b[4 * i] = (w[i] & 0xff) as u8;
+        b[4 * i + 1] = ((w[i] >> 8) & 0xff) as u8;
+        b[4 * i + 2] = ((w[i] >> 16) & 0xff) as u8;
+        b[4 * i + 3] = (w[i] >> 24) as u8;
+        i += 1;
+    }
+    b
+}
+
+/// 6.1.3 on octet strings: 32-octet key, 16-octet block.
+pub fn encrypt(key: &[u8; 32], x: &[u8; 16]) -> [u8; 16] {
+    octets16(&encrypt_words(words::<4>(x), &words::<8>(key)))
+}
+
+/// 6.1.4 on octet strings.
+pub fn decrypt(key: &[u8; 32], y: &[u8; 16]) -> [u8; 16] {
+    octets16(&decrypt_words(words::<4>(y), &words::<8>(key)))
+}
+
+// ------------------------------------------------------------------------------------------------ 6.2 belt-wblock
+//
+// Input: X of |X| >= 256 bits, |X| a multiple of 8 (an octet string of m >= 32 octets).  n = ceil(|X| / 128).
+// The working string r (|r| = |X|) is written r = r_1 || r_2 || ... || r_n with |r_1| = ... = |r_{n-1}| = 128 and
+// 0 < |r_n| <= 128; r^* denotes the LAST 128 bits of r (octets m-16..m, which straddle r_{n-1} and r_n when
+// |r_n| < 128).  ShLo^128 drops the first 128 bits (16 octets) of the string and appends 128 zero bits;
+// ShHi^128 prepends 128 zero bits and drops the last 128 bits.
+//
+// 6.2.3 encryption:                              6.2.4 decryption:
+//   1. r <- X                                      1. r <- Y
+//   2. for i = 1, 2, ..., 2n:                      2. for i = 2n, ..., 2, 1:
+//      1) s <- r_1 xor r_2 xor ... xor r_{n-1}        1) s <- r^*
+//      2) r^* <- r^* xor belt-block(s, K) xor <i>_128 2) r <- ShHi^128(r)
+//      3) r <- ShLo^128(r)                            3) r^* <- r^* xor belt-block(s, K) xor <i>_128
+//      4) r^* <- s                                    4) r_1 <- s xor r_2 xor ... xor r_{n-1}
+//   3. Y <- r                                      3. X <- r
+
+/// <i>_128 as 16 octets (first octet least significant).
+pub fn counter128(i: usize) -> [u8; 16] {
+    let mut c = [0u8; 16];
+    let mut v = i as u64;
+    let mut j = 0;
+    while j < 8 {
+        c[j] = (v & 0xff) as u8;
+        v >>= 8;
+        j += 1;
+    }
+    c
+}
+
+/// r_k xor-accumulated for k = first..=n-1 (1-based full blocks of the m-octet string r), starting from `acc`.
+fn xor_blocks(r: &[u8], n: usize, first: usize, acc: [u8; 16]) -> [u8; 16] {
+    let mut s = acc;
+    let mut k = first;
+    while k <= n - 1 {
+        let mut j = 0;
+        while j < 16 {
+            s[j] ^= r[16 * (k - 1) + j];
+            j += 1;
+        }
+        k += 1;
+    }
+    s
+}
+
+/// 6.2.3 with the block function as a parameter (`block(s)` stands for belt-block(s, K) on words).
+/// Returns false (and leaves `r` untouched) if |X| < 256 bits.
+pub fn wblock_enc_with<F: Fn([u32; 4]) -> [u32; 4]>(r: &mut [u8], block: F) -> bool {
+    let m = r.len();
+    if m < 32 {
+        return false;
+    }
+    let n = (m + 15) / 16;
+    let mut i = 1;
+    while i <= 2 * n {
+        // 1) s <- r_1 xor ... xor r_{n-1}
+        let s = xor_blocks(r, n, 1, [0u8; 16]);
+        // 2) r^* <- r^* xor belt-block(s, K) xor <i>_128
+        let e = octets16(&block(words::<4>(&s)));
+        let ctr = counter128(i);
+        let mut j = 0;
+        while j < 16 {
+            r[m - 16 + j] ^= e[j] ^ ctr[j];
+            j += 1;
+        }
+        // 3) r <- ShLo^128(r)
+        let mut j = 0;
+        while j < m {
+            r[j] = if j + 16 < m { r[j + 16] } else { 0 };
+            j += 1;
+        }
+        // 4) r^* <- s
+        let mut j = 0;
+        while j < 16 {
+            r[m - 16 + j] = s[j];
+            j += 1;
+        }
+        i += 1;
+    }
+    true
+}
+
+/// 6.2.4 with the block function as a parameter (belt-wblock decryption uses belt-block in the forward direction).
+pub fn wblock_dec_with<F: Fn([u32; 4]) -> [u32; 4]>(r: &mut [u8], block: F) -> bool {
+    let m = r.len();
+    if m < 32 {
+        return false;
+    }
+    let n = (m + 15) / 16;
+    let mut i = 2 * n;
+    while i >= 1 {
+        // 1) s <- r^*
+        let mut s = [0u8; 16];
+        let mut j = 0;
+        while j < 16 {
+            s[j] = r[m - 16 + j];
+            j += 1;
+        }
+        // 2) r <- ShHi^128(r)
+        let mut j = m;
+        while j > 0 {
+            j -= 1;
+            r[j] = if j >= 16 { r[j - 16] } else { 0 };
+        }
+        // 3) r^* <- r^* xor belt-block(s, K) xor <i>_128
+        let e = octets16(&block(words::<4>(&s)));
+        let ctr = counter128(i);
+        let mut j = 0;
+        while j < 16 {
+            r[m - 16 + j] ^= e[j] ^ ctr[j];
+            j += 1;
+        }
+        // 4) r_1 <- s xor r_2 xor ... xor r_{n-1}
+        let r1 = xor_blocks(r, n, 2, s);
+        let mut j = 0;
+        while j < 16 {
+            r[j] = r1[j];
+            j += 1;
+        }
+        i -= 1;
+    }
+    true
+}
+
+/// 6.2.3: belt-wblock encryption in place under the key words theta.
+pub fn wblock_enc(r: &mut [u8], theta: &[u32; 8]) -> bool {
+    wblock_enc_with(r, |s| encrypt_words(s, theta))
+}
+
+/// 6.2.4: belt-wblock decryption in place.
+pub fn wblock_dec(r: &mut [u8], theta: &[u32; 8]) -> bool {
+    wblock_dec_with(r, |s| encrypt_words(s, theta))
+}
+
+#[cfg(test)]
+mod tests {
+    extern crate std;
+    use super::*;
+    use std::vec::Vec;
+
+    fn hex(s: &str) -> Vec<u8> {
+        let d: Vec<u8> = s.bytes().filter(|c| !c.is_ascii_whitespace()).collect();
+        assert!(d.len() % 2 == 0);
+        d.chunks(2).map(|p| u8::from_str_radix(core::str::from_utf8(p).unwrap(), 16).unwrap()).collect()
+    }
+    fn arr<const N: usize>(s: &str) -> [u8; N] { hex(s).try_into().unwrap() }
+
+    const K1: &str = "E9DEE72C 8F0C0FA6 2DDB49F4 6F739647 06075316 ED247A37 39CBA383 03A98BF6";
+    const K2: &str = "92BD9B1C E5D14101 5445FBC9 5E4D0EF2 682080AA 227D642F 2687F934 90405511";
+
+    #[test]
+    fn h_table() {
+        // a permutation of the octets; first row as printed in the standard
+        let mut seen = [false; 256];
+        for x in 0..256 {
+            seen[H[x] as usize] = true;
+        }
+        assert!(seen.iter().all(|&b| b));
+        assert_eq!(&H[..16], &hex("B194BAC8 0A08F53B 366D008E 584A5DE4")[..]);
+        // G_r places H(u1) at the low octet before rotation
+        assert_eq!(g(0, 0x0000_0000), 0xB1B1_B1B1);
+        assert_eq!(g(0, 0x0000_0001), 0xB1B1_B194);
+        assert_eq!(g(5, 0x0000_0001), 0xB1B1_B194u32.rotate_left(5));
+        assert_eq!(g(32 + 5, 7), g(5, 7));
+    }
+
+    #[test]
+    fn round_keys() {
+        let theta = [1u32, 2, 3, 4, 5, 6, 7, 8];
+        for i in 1..=56 {
+            assert_eq!(round_key(&theta, i), ((i - 1) % 8 + 1) as u32);
+        }
+    }
+
+    #[test]
+    fn table_a1_encryption() {
+        let key: [u8; 32] = arr(K1);
+        let x: [u8; 16] = arr("B194BAC8 0A08F53B 366D008E 584A5DE4");
+        let y: [u8; 16] = arr("69CCA1C9 3557C9E3 D66BC3E0 FA88FA6E");
+        assert_eq!(encrypt(&key, &x), y);
+        assert_eq!(decrypt(&key, &y), x);
+    }
+
+    #[test]
+    fn table_a2_decryption() {
+        let key: [u8; 32] = arr(K2);
+        let y: [u8; 16] = arr("E12BDC1A E28257EC 703FCCF0 95EE8DF1");
+        let x: [u8; 16] = arr("0DC53006 00CAB840 B38448E5 E993F421");
+        assert_eq!(decrypt(&key, &y), x);
+        assert_eq!(encrypt(&key, &x), y);
+    }
+
+    #[test]
+    fn rounds_invert() {
+        // dec_round(i) undoes enc_round(i) up to the output permutations of steps 6
+        let theta: [u32; 8] = words::<8>(&hex(K1));
+        let mut s = [0x0123_4567u32, 0x89ab_cdef, 0xdead_beef, 0x0bad_f00d];
+        for t in 0..50u32 {
+            let x = s;
+            let y = encrypt_words(x, &theta);
+            assert_eq!(decrypt_words(y, &theta), x);
+            assert_eq!(encrypt_words(decrypt_words(x, &theta), &theta), x);
+            s = [y[0] ^ t, y[1], y[2].wrapping_add(t), y[3]];
+        }
+    }
+
+    fn wb(key: &str, x: &str, y: &str) {
+        let theta: [u32; 8] = words::<8>(&hex(key));
+        let (x, y) = (hex(x), hex(y));
+        let mut t = x.clone();
+        assert!(wblock_enc(&mut t, &theta));
+        assert_eq!(t, y);
+        assert!(wblock_dec(&mut t, &theta));
+        assert_eq!(t, x);
+    }
+
+    #[test]
+    fn table_a6_wblock_encryption() {
+        // |X| = 384 bits
+        wb(
+            K1,
+            "B194BAC8 0A08F53B 366D008E 584A5DE4 8504FA9D 1BB6C7AC 252E72C2 02FDCE0D 5BE3D612 17B96181 FE6786AD 716B890B",
+            "49A38EE1 08D6C742 E52B774F 00A6EF98 B106CBD1 3EA4FB06 80323051 BC04DF76 E487B055 C69BCF54 1176169F 1DC9F6C8",
+        );
+        // |X| = 376 bits (47 octets)
+        wb(
+            K1,
+            "B194BAC8 0A08F53B 366D008E 584A5DE4 8504FA9D 1BB6C7AC 252E72C2 02FDCE0D 5BE3D612 17B96181 FE6786AD 716B89",
+            "F08EF22D CAA06C81 FB127219 74221CA7 AB82C628 56FCF2F9 FCA006E0 19A28F16 E5821A51 F5735946 25DBAB8F 6A5C94",
+        );
+    }
+
+    #[test]
+    fn table_a7_wblock_decryption() {
+        // |Y| = 384 bits
+        wb(
+            K2,
+            "92632EE0 C21AD9E0 9A39343E 5C07DAA4 889B03F2 E6847EB1 52EC99F7 A4D9F154 B5EF68D8 E4A39E56 7153DE13 D72254EE",
+            "E12BDC1A E28257EC 703FCCF0 95EE8DF1 C1AB7638 9FE678CA F7C6F860 D5BB9C4F F33C657B 637C306A DD4EA779 9EB23D31",
+        );
+        // |Y| = 288 bits (36 octets)
+        wb(
+            K2,
+            "DF3F8822 30BAAFFC 92F05660 32117231 0E3CB218 2681EF43 102E6717 5E177BD7 5E93E4E8",
+            "E12BDC1A E28257EC 703FCCF0 95EE8DF1 C1AB7638 9FE678CA F7C6F860 D5BB9C4F F33C657B",
+        );
+    }
+
+    #[test]
+    fn wblock_short_and_lengths() {
+        let theta: [u32; 8] = words::<8>(&hex(K1));
+        let x: Vec<u8> = (0u8..200).collect();
+        for m in 0..32 {
+            let mut t = x[..m].to_vec();
+            assert!(!wblock_enc(&mut t, &theta));
+            assert!(!wblock_dec(&mut t, &theta));
+            assert_eq!(t, &x[..m]);
+        }
+        for m in 32..200 {
+            let mut t = x[..m].to_vec();
+            assert!(wblock_enc(&mut t, &theta));
+            assert_ne!(t, &x[..m]);
+            assert!(wblock_dec(&mut t, &theta));
+            assert_eq!(t, &x[..m]);
+            assert!(wblock_dec(&mut t, &theta));
+            assert!(wblock_enc(&mut t, &theta));
+            assert_eq!(t, &x[..m]);
+        }
+    }
+}
